@@ -878,8 +878,8 @@ func TestC03FlakyLoad(t *testing.T) {
 	t.Parallel()
 	const name = "flaky-backend-under-concurrent-load"
 	sub := lab.Sub(name, "sampled: a FLAKY backend under concurrent load: FAULTY (listed under 1-8 backend names, each with its own health state) answers 5xx to one request in 2-5 (by client number + request number) and 200 to all others and to every health probe, GOOD answers 200; "+
-		"16-64 keep-alive clients for 3 s (thorough: 3-5 s), 3 in 4 cases all in synchronised volleys (10 a second; every client has its connection open, waits at a barrier, all write at the same instant), else half of them free-running; passive checks on in 7 of 8 cases with unhealthy_threshold 2, 3, 5 or 50 "+
-		"(50: hardly ever reached, counted failures and successes of one backend alternate for the whole burst), off: unhealthy_timeout written or left out; breaker and limiter off (a breaker would answer most of the burst itself); strategy rotating over all five by case index; active checks, plugin chain (1 in 4), backend order, handler and backend_read timeout drawn; "+
+		"8-24 keep-alive clients for 2-3 s (thorough: 3-5 s), in 3 of 4 cases all free-running back to back, else half of them in synchronised volleys (10 a second; every client has its connection open, waits at a barrier, all write at the same instant); all connections are kept alive (thousands of requests a second per lab); passive checks on in 7 of 8 cases with unhealthy_threshold 2, 5, 50 or 1000 "+
+		"(2 in 3 cases: 50 or 1000, hardly ever / never reached, so the flaky backend stays in rotation and counted failures and successes of one backend alternate for the whole burst), off: unhealthy_timeout written or left out; breaker and limiter off (a breaker would answer most of the burst itself); strategy rotating over all five by case index; active checks, plugin chain (1 in 4), backend order, handler and backend_read timeout drawn; "+
 		"clause (i) for every single request of the burst, then (ii)-(iv) as everywhere; played twice per helios process; "+oracleText+"; every case is non-trivial")
 	sub.NontrivialFloor(1.0)
 	sub.Floor("fault-delivered", 0.90)
